@@ -143,7 +143,7 @@ def run(ctx):
     # ---- 2. traffic log of a connection ------------------------------------------------
     from geckolib.utils.snapshot import GeckoSnapshot
     default = GeckoSnapshot.parse_log_file(os.path.join(env.REPO, "tests", "snapshots", "default.snapshot"))[0]
-    segs = [39, 39, 20, 64, 1 + rng.randrange(200)] if ctx.quick else [39, 1, 2, 13, 20, 38, 40, 64, 100, 255] + [1 + rng.randrange(255) for _ in range(10)]
+    segs = [39, 39, 20, 64, 5 + rng.randrange(200)] if ctx.quick else [39, 5, 8, 13, 20, 38, 40, 64, 100, 255] + [5 + rng.randrange(251) for _ in range(10)]   # (>= 5: a chain's segment index is one byte, 1024 / size must stay below 256)
     for si, seg in enumerate(segs):
         base = bytearray(default.bytes)
         # keep the bytes the pack tables need to identify themselves; perturb the rest
